@@ -74,7 +74,7 @@ def run(ctx):
     # enumeration answers must not come out of a half-filled memo (shared with C10)
     from sa import partial
     ctx.rule('J-PARTIAL', 'the attributes of a sub-subsection are never served from a container that was filled between yields or one entry per query')
-    ctx.guard('J-PARTIAL', 'partial containers', partial.check_partial, ctx, w, 'J-PARTIAL', [SEC, EH, DEC])
+    ctx.guard('J-PARTIAL', 'partial containers', partial.check_partial, ctx, w, 'J-PARTIAL', [SEC, EH, DEC], ('Attribute', 'ARMAttribute', 'RISCVAttribute', 'EHABI'))
     ctx.floor('J-PARTIAL', 1)
     ctx.guard('L-CONF', 'subsection header', elfconf.check_hand_struct, ctx, w, 'Elf_Attr_Subsection_Header')
     for n in ('Elf_Arm_Attribute_Tag', 'Elf_RiscV_Attribute_Tag'):
